@@ -21,7 +21,7 @@ import copy
 import json
 import typing
 
-from .. import e2e
+from .. import cpuwatch, e2e
 from ..common import Hang, watchdog
 
 KINDS = ["pydantic_v2.BaseModel", "pydantic.BaseModel", "dataclasses.dataclass", "typing.TypedDict"]
@@ -204,8 +204,11 @@ def dups_case(ck, camp, case: dict, kind: str):
     cls = {"oracle": "e2e-dups", "kind": kind, "keep_model_order": bool(opts.get("keep_model_order")), "reuse_model": bool(opts.get("reuse_model")),
            "alias_as_base": ft["alias_as_base"]}
     res = e2e.run_generate(doc, model=kind, opts=opts, timeout=WATCHDOG_S)
+    res = cpuwatch.settle_hang(camp, res, lambda t: e2e.run_generate(doc, model=kind, opts=opts, timeout=t))  # a loaded machine is not a hang
+    if res is None:
+        return None
     if res.hang:
-        ck.fail({**cls, "mechanism": "hang"}, inp, f"generate() does not terminate ({WATCHDOG_S} s watchdog)")
+        ck.fail({**cls, "mechanism": "hang"}, inp, f"generate() does not terminate ({WATCHDOG_S} s watchdog, confirmed with {int(cpuwatch.CONFIRM_WALL_S)} s)")
         return None
     if not res.ok:
         ck.fail({**cls, "mechanism": "error_on_acyclic", "error_type": res.error_type}, inp,
